@@ -316,9 +316,9 @@ class _MatcherInst(Visitor):
             self._visit_expr(e, p)
         self._visit_expr(stmt.expr, pat.expr)
 
-    def _visit_if1(self, stmt: If1Stmt, pat: IfStmt):
+    def _visit_if1(self, stmt: If1Stmt, pat: If1Stmt):
         self._visit_expr(stmt.cond, pat.cond)
-        self._visit_block(stmt.body, pat.ift)
+        self._visit_block(stmt.body, pat.body)
 
     def _visit_if(self, stmt: IfStmt, pat: IfStmt):
         self._visit_expr(stmt.cond, pat.cond)
